@@ -448,7 +448,9 @@ theorem C18_total_electrum (ke : KeyEnv) (s : String) :
     · exact ⟨_, rfl⟩
   · unfold parseElectrumPub; split
     · split
-      · exact electrumOut_pub ..
+      · split
+        · exact ⟨_, rfl⟩
+        · exact electrumOut_pub ..
       · exact ⟨_, rfl⟩
     · exact ⟨_, rfl⟩
 
